@@ -41,6 +41,38 @@ CLAIMED = {
          "Theorems: A x >= 1 iff cover; cover search sound/optimal for non-negative costs; pruning sound for covers; C11_soft_is_minimal; "
          "soft <= best. Tie: library soft alignments judged by is_coverb, certified minimal by the extracted budgeted search, compared with best.",
          TB + "Costs are those of dissimilarity.d()."),
+ "C12": ("4/C12", "theorems on the accumulator-loop model + exact-rational comparison of gamma_k_disorder / gamma_cat / gamma_k",
+         "Theorems: the loop equals the weighted mean over considered pairs (gk_loop_eq_spec), exact characterisation of the conventional values, "
+         "non-negativity, gamma-cat/gamma-k <= 1, zero disorder (gamma = 1) when categories agree and nothing is unaligned, order independence. "
+         "Tie: gamma_k_disorder on best / soft / random alignments x combined dissimilarities x categories, and gamma_cat / gamma_k of "
+         "compute_gamma results, compared with the extracted model evaluated on the library's own positional/categorical unit values.",
+         TB + "Unit-to-unit values are inputs (C04); tolerance 2^-15."),
+ "C13": ("4/C13", "invariant + refinement theorems over all histories; exhaustive short and random long histories run against the model",
+         "Theorems: strict total order on units; the invariant (sorted annotators, strictly sorted unit sets, categories covering labels, enclosing "
+         "bounds, no zero-length unit) is preserved by every operation and hence by every history (run_ops_inv); each operation refines the "
+         "set-per-annotator specification; canonical form; equality; tight bounds after reset; in-place = out-of-place merge. Tie: operation "
+         "sequences (exhaustive to depth 2/3 over 52 operations, random to length 60) executed on real Continuum objects and on the extracted "
+         "model with every observation compared exactly after every operation.",
+         TB + "sortedcontainers / pyannote Segment are reached through the Continuum API only; names and labels are order-preserving ranks."),
+ "C17": ("4/C17", "exact characterisation theorems of both checks + outcome comparison on neighbours of valid alignments",
+         "Theorems: check succeeds iff uniform lengths, every continuum pair present and no pair repeated (iff exactly once on own-pair alignments); "
+         "soft check iff at least once; SetPartitionError characterised; independence of tuple order, slot order and continuum order. "
+         "Tie: Alignment.check / SoftAlignment.check / constructors with check_validity=True on valid alignments and ~25 neighbours each, outcome "
+         "enum compared exactly with the extracted model.",
+         TB + "Python set/Counter semantics reached through the checks only."),
+ "C04": ("4/C04", "algebraic-law theorems on the exact-rational formulas + differential comparison of d() and the compiled kernels with the formulas",
+         "Theorems: symmetry, non-negativity, zero on identical units for every class; array form = unit form for the absolute one; Levenshtein "
+         "symmetric, bounded, hence normaliser 1 and value independent of the other labels; ordinal value independent of the supplied order and at "
+         "most delta_empty; combined inherits the laws and uses one delta_empty. Tie: for objects of every class built from generated constructor "
+         "arguments (1..300 categories, label orders, components with another delta_empty) d(u1,u2) and the kernel value "
+         "(UnitaryAlignment([(a,u1),(b,u2)]).compute_disorder) must equal the extracted model's exact formula within 2^-17.",
+         TB + "The model description is built from constructor arguments only; float32 rounding tolerance 2^-17."),
+ "C09": ("4/C09", "invariance theorems (dissimilarities, pair sums, delta_empty scaling of candidates/optima/gamma) + metamorphic runs on large continua",
+         "Theorems: positional dissimilarity invariant under shift and positive scaling, absolute under injective renaming, ordinal under relisting; "
+         "sum over unordered annotator pairs invariant under permutation; delta_empty * k multiplies every cost and the cut by k, keeps the candidate "
+         "set, scales best and soft optima, leaves gamma unchanged. Tie: the relations are checked on the implementation for continua beyond the "
+         "oracle (2x60, 3x15, 5x5) with float32-exact transformations, and seeded gamma under delta_empty scaling.",
+         TB + "Implementation-only metamorphic comparison; tolerance 2^-15."),
 }
 
 checks = []
